@@ -68,7 +68,11 @@ def build_trace(rnd, tier, special: bool):
         return [rnd.randrange(8) for _ in range(rnd.randint(1, 3))]
 
     def step():
-        op = rnd.choice(["append", "append", "store", "store", "expunge", "expunge", "copy", "copy", "create", "delete", "rename", "rename", "subscribe", "advance"])
+        op = rnd.choice(["append", "append", "store", "store", "expunge", "expunge", "copy", "copy", "create", "delete", "rename", "rename", "subscribe", "advance", "fetch", "fetch"])
+        if op == "fetch":
+            # a body fetch without PEEK: its implicit \\Seen is a flag change the client was told about
+            # (seeded/C11-5: that change left uncommitted until some later command commits the mailbox)
+            return {"op": op, "box": rnd.randrange(3), "set": sset(), "what": rnd.randrange(4)}
         if op == "append":
             return {"op": op, "box": rnd.randrange(3), "flags": [rnd.randrange(5) for _ in range(rnd.randint(0, 2))]}
         if op == "store":
@@ -356,6 +360,9 @@ def run_history(trace, root_dir: str, crash_at, logfd: int, snap_dir=None):
                             await cmd(s, b"UID EXPUNGE " + uids.encode())
                     else:
                         await cmd(s, b"EXPUNGE")
+                elif op == "fetch":
+                    what = [b"(BODY[TEXT])", b"(RFC822)", b"(FLAGS BODY[]<0.10>)", b"(UID RFC822.TEXT)"][st_.get("what", 0) % 4]
+                    await cmd(s, b"FETCH " + text + b" " + what)
                 elif op == "copy":
                     dst = NAMES[st_["dst"] % 3]
                     await cmd(s, (b"MOVE " if st_["move"] else b"COPY ") + text + b" " + dst.encode())
@@ -628,6 +635,61 @@ def between(prev, nxt, got, what, inflight=""):
     return out
 
 
+def told_flags(acks):
+    """What the server itself told the client about flags, taken from the untagged FETCH responses of a
+    (non-SILENT) STORE or a body FETCH without PEEK: -> [(ack number, mailbox, {tag: flags told}, command line)].
+    This oracle does not come from reading a recovered copy (the snapshots do), so a flag change that is
+    acknowledged but never reaches the database is seen in the snapshot taken right after the acknowledgement
+    (seeded/C11-5).  Sequence numbers are mapped to messages by the read-only FETCH 1:* the history sends as the
+    next command of the same step."""
+    out = []
+    cur = None
+    for idx, a in enumerate(acks):
+        line = a["line"]
+        ms = re.match(r"SELECT (\S+)", line)
+        if ms:
+            cur = ms.group(1) if a["status"] == "OK" else None
+            continue
+        if line.startswith("UNSELECT"):
+            cur = None
+            continue
+        if cur is None or a["status"] != "OK" or not a.get("mutating") or ".SILENT" in line:
+            continue
+        if not (line.startswith("STORE ") or line.startswith("FETCH ")):
+            continue
+        if idx + 1 >= len(acks) or not acks[idx + 1]["line"].startswith("FETCH 1:* (UID BODY.PEEK[HEADER.FIELDS") or acks[idx + 1]["status"] != "OK":
+            continue
+        try:
+            r1, _, _ = wire.parse_stream(a["raw"].encode("latin-1"), strict=False)
+            r2, _, _ = wire.parse_stream(acks[idx + 1]["raw"].encode("latin-1"), strict=False)
+        except Exception:
+            continue
+        tag_of = {}
+        for x in r2:
+            if x.kind == "untagged" and x.name == "FETCH":
+                try:
+                    it = wire.fetch_items(x)
+                except wire.Malformed:
+                    continue
+                h = it.get("BODY[HEADER.FIELDS (X-VF-TAG)]")
+                mt = re.search(rb"X-VF-Tag:\s*(\S+)", bytes(h), re.I) if h is not None else None
+                if mt:
+                    tag_of[x.num] = mt.group(1).decode()
+        told = {}
+        for x in r1:
+            if x.kind == "untagged" and x.name == "FETCH":
+                try:
+                    it = wire.fetch_items(x)
+                except wire.Malformed:
+                    continue
+                if "FLAGS" in it and x.num in tag_of:
+                    fl = [f.decode("latin-1") if isinstance(f, (bytes, bytearray)) else str(f) for f in it["FLAGS"]]
+                    told[tag_of[x.num]] = sorted(f for f in fl if f.lower() != "\\recent")
+        if told:
+            out.append((a["ack"], "inbox" if cur.upper() == "INBOX" else cur, told, line))
+    return out
+
+
 PACK_FINDING = "pack-not-crash-safe"
 
 
@@ -705,6 +767,22 @@ def execute(trace) -> CaseResult:
             S[i] = stt
         if kind != "history":
             S.setdefault(0, {"boot": "ok", "boxes": {}, "list": {}})
+        # what the client was told about flags must be what a server started on the directory as it was right
+        # after that acknowledgement shows
+        ntold = 0
+        for i, b, told, line in (told_flags(acks) if kind == "history" else []):
+            g = (S.get(i) or {}).get("boxes", {}).get(b)
+            if not g or "error" in g:
+                continue
+            have = {m[1]: sorted(m[2]) for m in g["msgs"]}
+            for tag, fl in sorted(told.items()):
+                ntold += 1
+                if tag in have and have[tag] != fl:
+                    kk = max(1, min(K, acks[i - 1]["effects"][1] + 1)) if 0 < i <= len(acks) else 1
+                    v("C11.flags.told", f"crash right after {line[:50]!r} was acknowledged (command {i}): {b!r} message {tag} has flags {have[tag]} after the restart, "
+                      f"the server had told the client {fl}", kk, line.split(" ")[0] + "-told")
+        if ntold:
+            res.labels.append("told-flags-checked")
         windows = pack_windows((done or {}).get("pack", []))
         ks = list(range(1, K + 1))
         if trace.get("stride", 1) > 1:
